@@ -15,6 +15,9 @@ pub struct C02;
 pub struct Case {
     pub robot: RobotSpec,
     pub j: [f64; 6],
+    /// call history: the same pose is first put to this other robot (answers ignored)
+    #[serde(default)]
+    pub other: Option<RobotSpec>,
 }
 
 pub const WRIST_MARGIN: f64 = 0.01;
@@ -77,8 +80,9 @@ impl Property for C02 {
         (
             prop_oneof![3 => robot_catalogue(DofChoice::Six), 5 => robot_realistic(DofChoice::Six), 2 => robot_negative(DofChoice::Six)],
             prop_oneof![8 => joints_uniform(), 1 => joints_wide()],
+            prop_oneof![3 => Just(None), 1 => robot_realistic(DofChoice::Six).prop_map(Some)],
         )
-            .prop_map(|(robot, j)| Case { robot, j })
+            .prop_map(|(robot, j, other)| Case { robot, j, other })
             .boxed()
     }
     fn check(&self, c: &Case, ctx: &mut Ctx) -> Res {
@@ -93,6 +97,11 @@ impl Property for C02 {
         let k = opw(r);
         let pose = r.fk(&c.j);
         let na = to_na(&pose);
+        if let Some(o) = &c.other {
+            let ko = opw(o);
+            let _ = no_panic(|| ko.inverse(&na)).map_err(|m| viol!("inverse never panics", "other robot: {}", m))?;
+            ctx.class("history:another robot was asked for the same pose first");
+        }
         let sols = no_panic(|| k.inverse(&na)).map_err(|m| viol!("inverse never panics", "{}", m))?;
         ctx.class(&format!("answers:{}", sols.len()));
         ensure!(
